@@ -660,6 +660,24 @@ def aliasing_checks(ctx, cases):
                                   dict(mm, der=e[1].hex()), finding=codec.classify_roundtrip(T, v, 'DER', False))
 
 
+def has_unassigned_record(T, v):
+    """a present SEQUENCE/SET value none of whose members is assigned (class of finding F20b: its slot list is
+    empty until a member is read, and == compares the slot lists)"""
+    b = base_desc(T)
+    k = b[0]
+    if v is None:
+        return False
+    if k in ('seq', 'set'):
+        if all(fv is None for fv in v[1]):
+            return True
+        return any(has_unassigned_record(ft, fv) for (p, ft), fv in zip(b[1], v[1]))
+    if k in ('seqof', 'setof'):
+        return any(has_unassigned_record(b[1], x) for x in v[1])
+    if k == 'choice':
+        return has_unassigned_record(b[1][v[1]], v[2])
+    return False
+
+
 def safe_eq(a, b):
     try:
         return ('ok', bool(a == b), bool(b == a))
@@ -720,9 +738,11 @@ def reads_inert_checks(ctx, cases):
         ctx.stats['values whose absent OPTIONAL members were read'] += 1
         after = (I.run_encode('DER', x)[:2], I.run_encode('CER', x)[:2], I.run_encode('BER', x)[:2], safe_eq(x, twin))
         m = {'T': jsonable(T), 'v': jsonable(v), 'reads': log[:20]}
+        f20b = 'F20b' if has_unassigned_record(T, v) else None
         for name, a, b in zip(['DER', 'CER', 'BER', '== against a twin built without the reads'], before, after):
             if a != b:
-                ctx.prop_fail('reading absent OPTIONAL members changed %s' % name, dict(m, before=jsonable(a), after=jsonable(b)))
+                ctx.prop_fail('reading absent OPTIONAL members changed %s' % name, dict(m, before=jsonable(a), after=jsonable(b)),
+                              finding=(f20b if name.startswith('==') else None))
         if not has_memberless_record(T, v):
             y = x.clone(cloneValueFlag=True)
             ey = (I.run_encode('DER', y)[:2], I.run_encode('CER', y)[:2])
@@ -730,7 +750,7 @@ def reads_inert_checks(ctx, cases):
                 ctx.prop_fail('a clone taken after absent OPTIONAL members were read encodes differently', dict(m, clone=jsonable(ey), original=jsonable(after[:2])))
             elif safe_eq(y, twin) != before[3]:
                 ctx.prop_fail('a clone taken after absent OPTIONAL members were read compares differently with the twin',
-                              dict(m, clone=jsonable(safe_eq(y, twin)), original=jsonable(before[3])))
+                              dict(m, clone=jsonable(safe_eq(y, twin)), original=jsonable(before[3])), finding=f20b)
 
 
 def fixed_orders(ctx):
